@@ -15,7 +15,7 @@ PIECES = ["{% if a %}", "{% elsif b %}", "{% else %}", "{% endif %}", "{% for i 
           "{% liquid if a", "{% raw %}", "{% comment %}", "{% endcomment %}", "{% tablerow i in x %}", "{% case %}", "{% when %}", "t", "{{ a", "{% translate %}", "{% plural %}", "{% endtranslate %}", "{% macro m %}", "{% block b %}", "{% with a: 1 %}"]
 
 
-class Timeout(Exception):
+class Timeout(BaseException):  # not an Exception: the library wraps stray Exceptions into LiquidError
     pass
 
 
@@ -60,17 +60,22 @@ def run(tier, seed):
         "mutual-render": lambda d: ({"a": nest(d, "{% render 'b' %}"), "b": nest(d, "{% render 'a' %}")}, "{% render 'a' %}", ContextDepthError),
         "macro-renders-self": lambda d: ({"p": "{% macro m %}" + nest(d, "{% render 'p' %}") + "{% endmacro %}{% call m %}"}, "{% render 'p' %}", ContextDepthError),
         "extends-cycle": lambda d: ({"a": "{% extends 'b' %}", "b": nest(d, "") + "{% extends 'a' %}"}, "{% extends 'a' %}", TemplateInheritanceError),
+        "extends-cycle-in-directory": lambda d: ({"dir/a": "{% extends 'dir/b' %}", "dir/b": nest(d, "") + "{% extends 'dir/a' %}"}, "{% extends 'dir/a' %}", TemplateInheritanceError),
         "block-render-self": lambda d: ({"base": "{% block x %}" + nest(d, "{% render 'child' %}") + "{% endblock %}", "child": "{% extends 'base' %}"}, "{% render 'child' %}", ContextDepthError),
     }
-    for fname, mk in fams.items():
-        for d in depths:
+    import asyncio
+    for fname, mk, use_async in [(f_, m_, a_) for f_, m_ in fams.items() for a_ in (False, True)]:
+        for d in (depths if not use_async else depths[:2]):
             parts, src, exc = mk(d)
             cases += 1
             env = Environment(loader=DictLoader(parts))
             add_tags_and_filters(env)
             signal.setitimer(signal.ITIMER_REAL, 20.0)
             try:
-                env.from_string(src).render()
+                if use_async:
+                    asyncio.run(env.from_string(src).render_async())
+                else:
+                    env.from_string(src).render()
                 got = "completed"
             except Timeout:
                 got = "hang"
@@ -83,7 +88,7 @@ def run(tier, seed):
             finally:
                 signal.setitimer(signal.ITIMER_REAL, 0)
             if got != "cut-off":
-                viol.append({"id": "not-cut-off", "witness": f"stack-exhausted:block-depth>={10 if d >= 10 else d}" if "Recursion" in got else f"{fname}:{got}", "source": f"{fname} at block depth {d}: {src}", "got": got})
+                viol.append({"id": "not-cut-off", "witness": f"stack-exhausted:block-depth>={10 if d >= 10 else d}" if "Recursion" in got else f"{fname}:{got}{':async' if use_async else ''}", "source": f"{fname}{' (async)' if use_async else ''} at block depth {d}: {src}", "got": got})
     return {"bound": f"sources of <= {n} pieces over {len(PIECES)} block-tag pieces, strict and lax, 2 s budget each; 6 recursive families at block depths {depths}", "cases": cases, "distinct": cases, "violations": viol, "sample": {"family": "include-self", "depth": 5}}
 
 
